@@ -37,6 +37,7 @@ static FILE *wr_files[WR_MAXF]; static char wr_names[WR_MAXF][256]; static int w
 static const char *wr_ctx = "";   /* set by the workload macros: the API call being executed */
 static char  wr_fault_ctx[64];    /* API call during which the first fault fired */
 static char  wr_kinds[1 << 16];   /* kind of each call index (o r w s f c t), for the evidence */
+static void (*wr_on_first_fault)(void) = NULL;   /* optional hook, called inside the wrapped call in which the first fault fires */
 
 static int wr_slot(FILE *f) { for (int i = 0; i < wr_nfiles; i++) if (wr_files[i] == f) return i; return -1; }
 static int wr_hit(char kind)
@@ -44,7 +45,7 @@ static int wr_hit(char kind)
     long k = wr_calls++;
     if (k < (long)sizeof wr_kinds) wr_kinds[k] = kind;
     if (wr_fail_at >= 0 && (k == wr_fail_at || (wr_sticky && k > wr_fail_at))) {
-        if (wr_faults_fired++ == 0) { size_t i = 0; while (wr_ctx[i] && wr_ctx[i] != '(' && i < sizeof wr_fault_ctx - 1) { wr_fault_ctx[i] = wr_ctx[i]; i++; } wr_fault_ctx[i] = 0; }
+        if (wr_faults_fired++ == 0) { size_t i = 0; while (wr_ctx[i] && wr_ctx[i] != '(' && i < sizeof wr_fault_ctx - 1) { wr_fault_ctx[i] = wr_ctx[i]; i++; } wr_fault_ctx[i] = 0; if (wr_on_first_fault) wr_on_first_fault(); }
         return 1;
     }
     return 0;
